@@ -173,6 +173,8 @@ class Interp(object):
         self.global_overrides = {}   # (module name, variable) -> value
         self.unroll = {}             # (qualname, loop ordinal) -> max iterations (unwinding assertion)
         self.loop_specs = {}         # (qualname, loop ordinal) -> LoopSpec
+        self.constructed = set()     # ids of repository objects built through their own __new__/__init__
+        self._constructed_keep = []
         self.functions_seen = {}     # qualname -> 'interpreted' | 'contract' | 'assumed'
         self.depth = 0
         from . import builtins_model
@@ -327,6 +329,8 @@ class Interp(object):
             else:
                 obj = self.native(newf, [cls] + list(args), kwargs)
         if isinstance(obj, cls):
+            self.constructed.add(id(obj))
+            self._constructed_keep.append(obj)          # keep alive: ids must stay unique
             init = _mro_lookup(cls, '__init__')
             if isinstance(init, types.FunctionType):
                 if in_repo_scope(init.__module__):
@@ -512,6 +516,12 @@ class Interp(object):
         ga = _mro_lookup(tp, '__getattr__')
         if ga is not _MISSING:
             return self.call_value(ga, [obj, name], {})
+        if d is not None and id(obj) not in self.constructed and name in _template_attrs(tp):
+            # the object was put together by a verification harness (not by its own __init__) and the code asks for an
+            # attribute that the class's real constructor creates but the harness did not provide: the harness does not
+            # fit the code (a renamed or new attribute) - undecided, not a program error
+            raise Unsupported('harness-built %s lacks attribute %r, which its constructor creates (new or renamed in the code?)'
+                              % (tp.__name__, name))
         raise PyRaise(AttributeError("%r object has no attribute %r" % (tp.__name__, name)))
 
     def descr_get(self, attr, obj, tp):
@@ -1326,6 +1336,30 @@ def _bkey(f):
 _MODEL_NAMES = re.compile(r"\b(SInt|SBool|SBytes|SStr|SReal|SOpaque|SByteArray|SIntStr|SymRange|SymSet|SymList|SymDict|SymODict|"
                           r"SymArray|SymBytesIO|SymProtocol|Blob|AbstractSeq|AbsDeque|AbsItem|ByteReader|InStream|"
                           r"ArbitraryStream|ShortReadStream|OutSocket|Ghost\w+|Abs[A-Z]\w+|Sym[A-Z]\w+)\b")
+
+
+_TEMPLATES = {}
+
+
+def _template_attrs(tp):
+    """Attribute names that the real constructor of a (few, known) library class creates."""
+    key = (getattr(tp, '__module__', ''), tp.__name__)
+    if key not in _TEMPLATES:
+        names = frozenset()
+        try:
+            if key[0] == 'minecraft.networking.connection':
+                import minecraft.networking.connection as cm
+                conn = cm.Connection('localhost', 25565, username='u')
+                if tp.__name__ == 'Connection':
+                    names = frozenset(conn.__dict__)
+                elif tp.__name__ == 'NetworkingThread':
+                    names = frozenset(k for k in cm.NetworkingThread(conn).__dict__ if not k.startswith('_') or k in ('_run',))
+                elif tp.__name__ in ('PacketReactor', 'LoginReactor', 'PlayingReactor', 'StatusReactor', 'PlayingStatusReactor'):
+                    names = frozenset(getattr(cm, tp.__name__)(conn).__dict__)
+        except Exception:
+            names = frozenset()
+        _TEMPLATES[key] = names
+    return _TEMPLATES[key]
 
 
 def _mentions_symbolic(e):
